@@ -40,6 +40,7 @@ func init() {
 			{ID: "C13-R16", Title: "mount-relative paths go to the mount only", Floor: 5, Run: mountRelativePathsGoToTheMountOnly},
 			{ID: "C13-R17", Title: "the base of a rooted filesystem is made absolute", Floor: 1, Run: theBaseDoesNotMoveWithTheWorkingDirectory},
 			{ID: "C13-R18", Title: "a path under no mount point is refused there and then", Floor: 10, Run: pathsUnderNoMountAreRefused},
+			{ID: "C13-R19", Title: "the mount lookup is given the path as it came", Floor: 10, Run: theMountLookupIsGivenThePathAsItCame},
 		},
 	})
 }
